@@ -138,7 +138,7 @@ def run_child(models, perturb):
     env["PYTHONHASHSEED"] = perturb.get("hashseed", "0")
     env["PYTHONWARNINGS"] = "ignore"
     env["PYTHONDONTWRITEBYTECODE"] = "1"
-    p = subprocess.run([common.PYTHON, "-m", "vf.c07child"],
+    p = subprocess.run([common.PYTHON] + common.py_flags() + ["-m", "vf.c07child"],
                        input=json.dumps({"models": models, "perturb": perturb}),
                        capture_output=True, text=True, cwd=common.VERIF_DIR, env=env,
                        timeout=600)
